@@ -483,7 +483,8 @@ def probe_fixed(ctx):
             ctx.fail(key, f"cnot_count(vector_1d, {scheme!r}, 'estimate') raised {type(e).__name__}: {e}",
                      {"call": f"qclib.isometry.cnot_count(v8, {scheme!r}, 'estimate')"})
     # validation: invalid shapes are rejected (C16 owns the full list; here only what decompose's own check covers)
-    for name, m in (("non-orthonormal", np.ones((4, 2)) / 2.0), ("wide", np.eye(2)[:1, :]), ("3-rows", np.eye(3)[:, :2])):
+    for name, m in (("non-orthonormal", np.ones((4, 2)) / 2.0), ("wide", np.eye(2)[:1, :]), ("3-rows", np.eye(3)[:, :2]),
+                    ("3-columns", np.eye(4)[:, :3])):
         key = f"decompose-accepts-invalid:{name}"
         try:
             qi.decompose(np.asarray(m, dtype=complex), "ccd")
@@ -495,9 +496,81 @@ def probe_fixed(ctx):
             ctx.fail(key, "decompose() returned a circuit for an invalid matrix", {"call": f"decompose({name})"})
 
 
+# ---------------------------------------------------------------------------------------------------
+# branch coverage of the anchored sources (tools/branch_audit.py C03)
+# ---------------------------------------------------------------------------------------------------
+
+UNREACHED_JUSTIFIED = {
+    "qclib/isometry.py:341-353,_cnot_count_estimate*:411->398,430-433,440-441": "cnot_count and its estimates: property C10 (C03 only probes that the estimate accepts a 1-D vector, fix 9d45b9d)",
+    "qclib/unitary.py:40-47": "validation raises of unitary(): the matrix handed over by _csd is the unitary extension (checked per call: assumption:extend-unitary); rejection is property C16",
+    "qclib/unitary.py:50->59": "apply_a2=False / decomposition != 'qsd': isometry._csd always calls unitary(.., 'qsd', iso, apply_a2=True); property C02",
+    "qclib/unitary.py:104-105,115-122,_csd,_multiplexed_csd,_qrd,_build_qr_*,_get_row_col,_row_and_col_qubits,_apply_mcxs,_apply_cx,_undo_mcxs,_append_mcmt_gate": "decompositions 'csd' and 'qr' of qclib.unitary are never selected by qclib.isometry (scheme 'csd' of the isometry IS unitary's 'qsd' in isometry mode); property C02",
+    "qclib/unitary.py:225-296": "cnot_count of qclib.unitary: property C10",
+}
+
+
+def probe_call_forms(ctx):
+    """decompose() called without `scheme` (documented default 'ccd'), with keyword arguments, with integer / real dtypes
+    (`isometry.astype(complex)`), and the documented rejection of Knill on one qubit."""
+    import numpy as np
+    import qclib.isometry as qi
+    from qiskit.quantum_info import Operator
+    cases = []
+    for n in (1, 2, 3):
+        for m in range(0, n + 1):
+            seed = ctx.rng.getrandbits(32)
+            fam = ctx.rng.choice(["haar", "real_signed", "hadamard", "identity_columns"])
+            v = make_isometry(fam, n, m, seed)
+            cases.append((n, m, fam, seed, "default-scheme", "ccd", lambda q, v=v: q.decompose(v.copy())))
+            sch = ctx.rng.choice(["ccd", "csd"] + (["knill"] if n >= 2 else []))
+            cases.append((n, m, fam, seed, "keywords", sch, lambda q, v=v, sch=sch: q.decompose(isometry=v.copy(), scheme=sch)))
+            seed2 = ctx.rng.getrandbits(32)
+            rng = np.random.default_rng(seed2)
+            vi = np.eye(2 ** n, dtype=int)[:, rng.permutation(2 ** n)[: 2 ** m]] * rng.choice([1, -1], 2 ** m)
+            sch2 = ctx.rng.choice(["ccd", "csd"] + (["knill"] if n >= 2 else []))
+            cases.append((n, m, "int-dtype-columns", seed2, "int-dtype", sch2, (lambda q, vi=vi, sch2=sch2: q.decompose(vi.copy(), sch2)), vi))
+    for case in cases:
+        n, m, fam, seed, form, scheme, call = case[:7]
+        v = case[7] if len(case) > 7 else make_isometry(fam, n, m, seed)
+        key = f"isometry-form:{form}:{scheme}:n={n}:m={m}:{fam}"
+        rep = {"call": f"qclib.isometry.decompose, form {form!r}", "n": n, "m": m, "family": fam, "seed": seed, "scheme": scheme,
+               "form": form, "how": "see tools/props/c03.py::probe_call_forms"}
+        ctx.count(f"branch:call-form:{form}")
+        rec = []
+        try:
+            with instrumented(rec) as q:
+                circ = call(q)
+        except Exception as e:  # noqa: BLE001
+            ctx.fail(f"decompose-raises:{scheme}:{form}:n={n}:m={m}", f"qclib raised on a valid isometry ({fam}): {type(e).__name__}: {e}", rep)
+            continue
+        err = float(np.abs(Operator(circ).data[:, : 2 ** m] - np.asarray(v).reshape(2 ** n, -1)).max()) if circ.num_qubits == n else float("inf")
+        if form == "default-scheme" and sum(1 for r in rec if r[0] == "g_k-begin") != 2 ** m:
+            ctx.fail(key + ":scheme", "decompose(V) without `scheme` did not run the column-by-column sweep (documented default 'ccd')", rep)
+        elif err > TOL:
+            ctx.fail(key, f"max |Operator(circuit)[:, :2^m] - V| = {err:.3e}", rep)
+        else:
+            ctx.ok(key, nontrivial=n >= 2, sample={"n": n, "m": m, "family": fam, "scheme": scheme, "form": form, "err": err})
+    # Knill on one qubit is rejected by design (docstring: n >= 2; explicit ValueError at isometry.py:104-105)
+    for m in (0, 1):
+        key = f"decompose-knill-one-qubit-rejected:m={m}"
+        ctx.count("branch:knill-n=1-rejected")
+        try:
+            qi.decompose(make_isometry("haar", 1, m, 3), "knill")
+        except ValueError:
+            ctx.ok(key, nontrivial=False)
+        except Exception as e:  # noqa: BLE001
+            ctx.fail(key, f"raised {type(e).__name__} instead of the documented ValueError: {e}", {"call": "decompose(2 x %d, 'knill')" % 2 ** m})
+        else:
+            ctx.fail(key, "decompose(.., 'knill') on one qubit returned a circuit (the code documents a ValueError)",
+                     {"call": "decompose(2 x %d, 'knill')" % 2 ** m})
+    ctx.notes.append("decompose() needs an ndarray (first statement `isometry.astype(complex)`; annotation np.ndarray although the "
+                     "docstring says 'isometry (list)'): a nested list raises AttributeError - treated as outside the domain")
+
+
 def run(ctx):
     run_tie(ctx)
     probe_fixed(ctx)
+    probe_call_forms(ctx)
     jobs = oracle_jobs(ctx, 5 if ctx.quick else 6, 2 if ctx.quick else 3)
     for job, res in zip(jobs, run_jobs(jobs)):
         judge(ctx, job, res)
@@ -515,6 +588,9 @@ def search(ctx, hints):
 
 def replay(ctx, payload):
     r = payload["replay"]
+    if r.get("form"):
+        probe_call_forms(ctx)
+        return
     job = ("iso", r["n"], r["m"], r["family"], r["seed"], r["scheme"], r.get("as_1d_vector", False))
     judge(ctx, job, run_job(job))
     flush_deferred(ctx)
